@@ -18,9 +18,9 @@ use std::collections::{BTreeMap, BTreeSet};
 pub const META: PropMeta = PropMeta {
     id: "C17",
     level: "exploration",
-    rule: "cases = well-formed, coincidence-free registries (simulator programs whose every instantiation is coincidence-free and whose families are untainted; Polkadot sub-registries restricted likewise; and merges of two versions of one program - same paths, one local edit - whose members are coincidence-free), each with (a) 6 (quick) / 10 (thorough) permutations of its entries with consistent renumbering (reversal, 'second instantiation first', random) and (b) 3 / 5 reachability-closed sub-registries produced by PortableRegistry::retain from random root sets. Oracles (metamorphic): (a) generate_types_mod on the permuted registry returns the same outcome and, when Ok, a token-identical module; ensure_unique_type_paths partitions the entries into the same rename groups (compared as a partition through the id map); (b) for every path emitted from the sub-registry the item is token-identical to the item emitted from the full registry; type_description of every retained id is the same string; example-value validity (returns a value that round-trips / returns an error) of every retained id is the same for 2 seeds. non-trivial = registry with >= 1 generic family of >= 2 instantiations; distinct by registry hash.",
+    rule: "cases = well-formed, coincidence-free registries (simulator programs whose every instantiation is coincidence-free and whose families are untainted; Polkadot sub-registries restricted likewise; and merges of two versions of one program - same paths, one local edit - whose members are coincidence-free; a hand-written gallery of four-parameter definitions in which one member uses two parameters and two more stay unused, with the arguments numbered rising / falling / mixed, and four-parameter definitions in every fourth random program), each with (a) 6 (quick) / 10 (thorough) permutations of its entries with consistent renumbering (reversal, 'second instantiation first', random) and (b) 3 / 5 reachability-closed sub-registries produced by PortableRegistry::retain from random root sets. Oracles (metamorphic): (a) generate_types_mod on the permuted registry returns the same outcome and, when Ok, a token-identical module; ensure_unique_type_paths partitions the entries into the same rename groups (compared as a partition through the id map); (b) for every path emitted from the sub-registry the item is token-identical to the item emitted from the full registry; type_description of every retained id is the same string; example-value validity (returns a value that round-trips / returns an error) of every retained id is the same for 2 seeds. non-trivial = registry with >= 1 generic family of >= 2 instantiations; distinct by registry hash.",
     assumptions: &["coincidence-freedom is decided from the source program (simulator) or conservatively on the registry (Polkadot)"],
-    required_counters: &["permutations_compared", "subregistries_compared", "items_compared", "descriptions_compared", "dedup_partitions_compared", "families_with_renames", "two_version_registries"],
+    required_counters: &["permutations_compared", "subregistries_compared", "items_compared", "descriptions_compared", "dedup_partitions_compared", "families_with_renames", "two_version_registries", "four_parameter_gallery_programs", "cases_with_four_parameter_definitions"],
     floor: (200, 4000),
     shards: (16, 16),
 };
